@@ -1,5 +1,5 @@
 //! C09 - all query entry points agree and results have shape query ++ trailing data dims.
-use ndarray::{Array1, Array2, ArrayD, Axis, Ix0, Ix1, Ix2, Ix3, Ix4, Ix5, Ix6, IxDyn};
+use ndarray::{Array1, Array2, Array3, ArrayD, Axis, Ix0, Ix1, Ix2, Ix3, Ix4, Ix5, Ix6, IxDyn};
 use ndarray_interp::interp1d::cubic_spline::CubicSpline;
 use ndarray_interp::interp1d::{Interp1DBuilder, Linear};
 use ndarray_interp::interp2d::{Bilinear, Interp2DBuilder};
@@ -527,6 +527,168 @@ fn huge_batches(m: usize, two_d_query: bool, out: &mut JobOut) {
     }
 }
 
+// ------------------------------------------------------------------------------------------
+// a user strategy that does not write every element of its target
+
+/// writes `x (+ y) + index` into the even elements of the target and leaves the odd ones alone
+/// (think of a strategy that skips gaps in the data)
+#[derive(Debug, Clone, Copy)]
+struct Sparse;
+
+impl<Sd, Sx, D> ndarray_interp::interp1d::Interp1DStrategyBuilder<Sd, Sx, D> for Sparse
+where
+    Sd: ndarray::Data<Elem = f64>,
+    Sx: ndarray::Data<Elem = f64>,
+    D: ndarray::Dimension + ndarray::RemoveAxis,
+{
+    const MINIMUM_DATA_LENGHT: usize = 2;
+    type FinishedStrat = Sparse;
+    fn build<Sx2>(self, _x: &ndarray::ArrayBase<Sx2, Ix1>, _data: &ndarray::ArrayBase<Sd, D>) -> Result<Sparse, ndarray_interp::BuilderError>
+    where
+        Sx2: ndarray::Data<Elem = f64>,
+    {
+        Ok(Sparse)
+    }
+}
+impl<Sd, Sx, D> ndarray_interp::interp1d::Interp1DStrategy<Sd, Sx, D> for Sparse
+where
+    Sd: ndarray::Data<Elem = f64>,
+    Sx: ndarray::Data<Elem = f64>,
+    D: ndarray::Dimension + ndarray::RemoveAxis,
+{
+    fn interp_into(&self, _ip: &ndarray_interp::interp1d::Interp1D<Sd, Sx, D, Self>, mut target: ndarray::ArrayViewMut<f64, D::Smaller>, x: f64) -> Result<(), InterpolateError> {
+        for (i, t) in target.iter_mut().enumerate() {
+            if i % 2 == 0 {
+                *t = x + i as f64;
+            }
+        }
+        Ok(())
+    }
+}
+impl<Sd, Sx, Sy, D> ndarray_interp::interp2d::Interp2DStrategyBuilder<Sd, Sx, Sy, D> for Sparse
+where
+    Sd: ndarray::Data<Elem = f64>,
+    Sx: ndarray::Data<Elem = f64>,
+    Sy: ndarray::Data<Elem = f64>,
+    D: ndarray::Dimension + ndarray::RemoveAxis,
+    D::Smaller: ndarray::RemoveAxis,
+{
+    const MINIMUM_DATA_LENGHT: usize = 2;
+    type FinishedStrat = Sparse;
+    fn build(self, _x: &ndarray::ArrayBase<Sx, Ix1>, _y: &ndarray::ArrayBase<Sy, Ix1>, _data: &ndarray::ArrayBase<Sd, D>) -> Result<Sparse, ndarray_interp::BuilderError> {
+        Ok(Sparse)
+    }
+}
+impl<Sd, Sx, Sy, D> ndarray_interp::interp2d::Interp2DStrategy<Sd, Sx, Sy, D> for Sparse
+where
+    Sd: ndarray::Data<Elem = f64>,
+    Sx: ndarray::Data<Elem = f64>,
+    Sy: ndarray::Data<Elem = f64>,
+    D: ndarray::Dimension + ndarray::RemoveAxis,
+    D::Smaller: ndarray::RemoveAxis,
+{
+    fn interp_into(&self, _ip: &ndarray_interp::interp2d::Interp2D<Sd, Sx, Sy, D, Self>, mut target: ndarray::ArrayViewMut<'_, f64, <D::Smaller as ndarray::Dimension>::Smaller>, x: f64, y: f64) -> Result<(), InterpolateError> {
+        for (i, t) in target.iter_mut().enumerate() {
+            if i % 2 == 0 {
+                *t = x + 10.0 * y + i as f64;
+            }
+        }
+        Ok(())
+    }
+}
+
+/// fill the allocator's free lists with blocks of `len` f64 holding a sentinel, so that memory handed
+/// out next without being cleared is visible
+fn dirty_heap(len: usize) {
+    let blocks: Vec<Vec<f64>> = (0..4).map(|_| vec![7.25f64; len]).collect();
+    std::hint::black_box(&blocks);
+    drop(blocks);
+}
+
+/// With `Sparse` every allocating entry point must agree element by element with single queries
+/// (the elements the strategy leaves alone included), and the *_into forms must write exactly the
+/// elements the allocating form differs in from an untouched buffer.
+fn run_sparse(two_d: bool, lanes: usize, out: &mut JobOut) {
+    let key = format!("sparse-user-strategy:{}:lanes{lanes}", if two_d { "Interp2D" } else { "Interp1D" });
+    let qx = [0.5, 1.25, 2.0, 0.0, 1.75, 0.25];
+    let qy = [0.25, 0.0, 1.0, 0.75, 0.5, 1.0];
+    let single = |k: usize| -> Vec<u64> {
+        dirty_heap(lanes);
+        if two_d {
+            let ip = Interp2DBuilder::new(Array3::<f64>::zeros((3, 2, lanes))).strategy(Sparse).build().expect("valid");
+            ip.interp(qx[k], qy[k]).expect("in range").iter().map(|v| v.to_bits()).collect()
+        } else {
+            let ip = Interp1DBuilder::new(Array2::<f64>::zeros((3, lanes))).strategy(Sparse).build().expect("valid");
+            ip.interp(qx[k]).expect("in range").iter().map(|v| v.to_bits()).collect()
+        }
+    };
+    let want: Vec<Vec<u64>> = (0..6).map(single).collect();
+    out.states += 1;
+    for (shape, name) in [(vec![6usize], "Ix1"), (vec![2, 3], "Ix2"), (vec![3, 1, 2], "Ix3"), (vec![6], "dyn1"), (vec![1, 2, 3], "dyn3")] {
+        let dynamic = name.starts_with("dyn");
+        for into in [false, true] {
+            dirty_heap(6 * lanes);
+            let mut full = shape.clone();
+            full.push(lanes);
+            let sentinel = -777.25f64;
+            let mut buf = ArrayD::from_elem(IxDyn(&full), sentinel);
+            let xs = ArrayD::from_shape_vec(IxDyn(&shape), qx.to_vec()).unwrap();
+            let ys = ArrayD::from_shape_vec(IxDyn(&shape), qy.to_vec()).unwrap();
+            macro_rules! call {
+                ($dq:ty, $db:ty) => {{
+                    let (xa, ya) = (xs.clone().into_dimensionality::<$dq>().unwrap(), ys.clone().into_dimensionality::<$dq>().unwrap());
+                    if two_d {
+                        let ip = Interp2DBuilder::new(Array3::<f64>::zeros((3, 2, lanes))).strategy(Sparse).build().expect("valid");
+                        if into {
+                            catch(|| ip.interp_array_into(&xa, &ya, buf.view_mut().into_dimensionality::<$db>().unwrap()).map(|_| None)).and_then(|r| r.map_err(|e| e.to_string()))
+                        } else {
+                            catch(|| ip.interp_array(&xa, &ya).map(|a| Some(a.into_dyn()))).and_then(|r| r.map_err(|e| e.to_string()))
+                        }
+                    } else {
+                        let ip = Interp1DBuilder::new(Array2::<f64>::zeros((3, lanes))).strategy(Sparse).build().expect("valid");
+                        if into {
+                            catch(|| ip.interp_array_into(&xa, buf.view_mut().into_dimensionality::<$db>().unwrap()).map(|_| None)).and_then(|r| r.map_err(|e| e.to_string()))
+                        } else {
+                            catch(|| ip.interp_array(&xa).map(|a| Some(a.into_dyn()))).and_then(|r| r.map_err(|e| e.to_string()))
+                        }
+                    }
+                }};
+            }
+            let res: Result<Option<ArrayD<f64>>, String> = match (name, dynamic) {
+                ("Ix1", _) => call!(Ix1, Ix2),
+                ("Ix2", _) => call!(Ix2, Ix3),
+                ("Ix3", _) => call!(Ix3, Ix4),
+                _ => call!(IxDyn, IxDyn),
+            };
+            out.evals += 1;
+            out.nontrivial += 1;
+            out.transitions += 1;
+            let call_name = format!("{}({name} query)", if into { "interp_array_into" } else { "interp_array" });
+            let bad = match res {
+                Err(e) => Some(format!("not answered: {e}")),
+                Ok(r) => {
+                    let got = r.unwrap_or_else(|| buf.clone());
+                    let mut bad = None;
+                    for (e, v) in got.iter().enumerate() {
+                        let (k, l) = (e / lanes, e % lanes);
+                        let expect = if into && l % 2 == 1 { sentinel.to_bits() } else { want[k][l] };
+                        if v.to_bits() != expect {
+                            bad = Some(format!("element {e} (query {k}, lane {l}) is {v:e}, {} gives {:e}", if into && l % 2 == 1 { "which the strategy does not write: the buffer held" } else { "the single query" }, f64::from_bits(expect)));
+                            break;
+                        }
+                    }
+                    bad
+                }
+            };
+            out.outcome(if bad.is_none() { "sparse:agree" } else { "sparse:differ" });
+            if let Some(w) = bad {
+                out.violate(format!("{key}:{call_name}"), format!("{} with a user strategy that writes only the even lanes, {lanes} lanes, {call_name}: {w}", if two_d { "Interp2D" } else { "Interp1D" }), Json::obj(vec![("lanes", Json::Int(lanes as i128)), ("query_shape", Json::usizes(&shape))]));
+            }
+        }
+    }
+    out.sample = Some(Json::str("user strategy writing even lanes only; query shapes [6], [2,3], [3,1,2], dyn [6], dyn [1,2,3]"));
+}
+
 fn body(ctx: &Ctx) -> (Summary, Meta) {
     let quick = false; // the full set costs 0.1 s
     let _ = ctx.quick();
@@ -611,8 +773,13 @@ fn body(ctx: &Ctx) -> (Summary, Meta) {
         huge_batches(h.0, h.1, &mut out);
         out
     }));
+    sum.merge(run_jobs(ctx, "sparse-user-strategy", &[(false, 3usize), (false, 4), (false, 33), (true, 3), (true, 4), (true, 33)], |j| format!("sparse-user-strategy:{}:lanes{}", if j.0 { "Interp2D" } else { "Interp1D" }, j.1), |j| {
+        let mut out = JobOut::default();
+        run_sparse(j.0, j.1, &mut out);
+        out
+    }));
     let meta = Meta {
-        rule: "every instantiation {Interp1D x data Ix1..Ix6, IxDyn(rank 1,3,7,14,20); Interp2D x data Ix2..Ix6, IxDyn(rank 2,4,8,15)} x query dimension types Ix0..Ix4, IxDyn(rank 0..5; incl. dynamic rank 1, which takes the general path) x query shapes incl. empty ones x data shapes incl. a zero-length trailing axis x strategies {Linear, Linear+extrapolate, CubicSpline on the default axis; Linear, periodic and natural extrapolating CubicSpline on the explicit axis -5.3 + 2.7 i / Bilinear, Bilinear+extrapolate} x {all in range, one out-of-range element at the last / first / middle position}. Oracle: result shape = query shape ++ trailing data dims (also when the combined rank exceeds 6); interp_array(q)[i] == interp(q[i]) bit for bit; the batch is Ok iff every element is; interp_array_into into a poisoned window equals interp_array and leaves the surroundings intact; interp_scalar == interp. Queries hit knots exactly, repeat values, contain 0.0 next to -0.0 (the samples at the first knot are -0.0) and, in a separate group, are views into the same buffer as the axis. Phase edge-knot-batches: 2688 axes whose knots are subsets of k/10, k/3, 7k/10 and a symmetric dyadic set; all knots, their neighbouring floats and midpoints answered one by one, as static and dynamic rank-1 batches (at least as long as the axis), again one by one afterwards and on a second fresh interpolator - all bit-identical. Phase huge-batches: batches of 2^21+9, 2^22+9 (thorough: 2^24+9) queries (results of 16 - 128 MiB) with four out-of-range elements, 1-d and 2-d query arrays, Linear / CubicSpline / Bilinear with and without extrapolation: interp_array and interp_array_into agree with element-wise interp_scalar in verdict and bits. Every case is non-trivial.".into(),
+        rule: "every instantiation {Interp1D x data Ix1..Ix6, IxDyn(rank 1,3,7,14,20); Interp2D x data Ix2..Ix6, IxDyn(rank 2,4,8,15)} x query dimension types Ix0..Ix4, IxDyn(rank 0..5; incl. dynamic rank 1, which takes the general path) x query shapes incl. empty ones x data shapes incl. a zero-length trailing axis x strategies {Linear, Linear+extrapolate, CubicSpline on the default axis; Linear, periodic and natural extrapolating CubicSpline on the explicit axis -5.3 + 2.7 i / Bilinear, Bilinear+extrapolate} x {all in range, one out-of-range element at the last / first / middle position}. Oracle: result shape = query shape ++ trailing data dims (also when the combined rank exceeds 6); interp_array(q)[i] == interp(q[i]) bit for bit; the batch is Ok iff every element is; interp_array_into into a poisoned window equals interp_array and leaves the surroundings intact; interp_scalar == interp. Queries hit knots exactly, repeat values, contain 0.0 next to -0.0 (the samples at the first knot are -0.0) and, in a separate group, are views into the same buffer as the axis. Phase edge-knot-batches: 2688 axes whose knots are subsets of k/10, k/3, 7k/10 and a symmetric dyadic set; all knots, their neighbouring floats and midpoints answered one by one, as static and dynamic rank-1 batches (at least as long as the axis), again one by one afterwards and on a second fresh interpolator - all bit-identical. Phase huge-batches: batches of 2^21+9, 2^22+9 (thorough: 2^24+9) queries (results of 16 - 128 MiB) with four out-of-range elements, 1-d and 2-d query arrays, Linear / CubicSpline / Bilinear with and without extrapolation: interp_array and interp_array_into agree with element-wise interp_scalar in verdict and bits. Every case is non-trivial. Phase sparse-user-strategy: a user strategy that writes only the even lanes of its target (3, 4 and 33 lanes, Interp1D and Interp2D): interp_array for static rank 1/2/3 and dynamic rank 1/3 queries equals the single queries in every element (the unwritten ones included; the allocator's free lists are filled with a sentinel beforehand), interp_array_into writes exactly the even lanes.".into(),
         bounds: format!("{ncases} cases over 78 static/dynamic instantiations x 3 (2) strategies; tier {}", ctx.tier.name()),
         assumptions: vec![],
         extra: vec![],
